@@ -7,6 +7,7 @@ import traceback
 import subprocess
 import tempfile
 import z3
+from .values import z3check
 from .values import (CTX, PyRaise, OutOfSubset, Infeasible, PathExplosion, SNum, SBool, SLabel, SChoice, ClassVal, Inst, FunctionVal,
                      PropertyVal, StaticVal, ModuleVal, Opaque, IDict, ISet, Builtin, explore, force, lift, zbool)
 from . import ops, specsym
@@ -120,7 +121,7 @@ def solve_plain(assertions, timeout_ms):
     s.set('timeout', timeout_ms)
     s.add(*background())
     s.add(*assertions)
-    r = s.check()
+    r = z3check(s, timeout_ms)
     ms = int((time.time() - t0) * 1000)
     if r == z3.unsat:
         return 'unsat', None, ms, 'z3(quantifiers)'
@@ -176,7 +177,7 @@ def solve(assertions, timeout_ms, want_model=True, use_cvc5=True):
     s.set('timeout', timeout_ms)
     s.add(*background())
     s.add(*assertions)
-    r = s.check()
+    r = z3check(s, timeout_ms)
     ms = int((time.time() - t0) * 1000)
     if r == z3.unsat:
         return 'unsat', None, ms, 'z3'
@@ -189,7 +190,7 @@ def solve(assertions, timeout_ms, want_model=True, use_cvc5=True):
         tac.set('timeout', timeout_ms)
         tac.add(*background())
         tac.add(*assertions)
-        r2 = tac.check()
+        r2 = z3check(tac, timeout_ms)
         ms2 = int((time.time() - t1) * 1000)
         if r2 == z3.unsat:
             return 'unsat', None, ms + ms2, 'z3-nlsat'
@@ -554,7 +555,13 @@ class Engine:
                 if z3.is_true(goal):
                     o['queries'].append({'path': pi, 'result': 'trivial', 'ms': 0, 'backend': 'simplifier'})
                     continue
-                st, model, ms, be = solve_goal(conds, goal, timeout_ms, getattr(rec, 'bigsums', ()))
+                # budget: after a refuted obligation the verdict of this contract is settled, after three `unknown`s it is undecided
+                # anyway - the remaining obligations then get a token budget, so that a (mutated) function whose conditions the
+                # solver cannot digest costs seconds, not minutes
+                spent_unknown = sum(1 for x in oblig.values() for q in x['queries'] if q.get('result') == 'unknown')
+                any_failed = any(x['status'] == 'failed' for x in oblig.values())
+                budget = timeout_ms if not (any_failed or spent_unknown >= 3) else min(timeout_ms, 1000)
+                st, model, ms, be = solve_goal(conds, goal, budget, getattr(rec, 'bigsums', ()))
                 if st == 'sat':
                     lens = [t['len'] for kind, t in rec.leaves.values() if kind == 'list']
                     for bound in (2, 4):
